@@ -78,6 +78,9 @@ type entry struct {
 	// RewriteGlobals: run vrewrite with -globals (scheduling points at
 	// accesses to written package-level variables, zzResetGlobals).
 	RewriteGlobals bool `json:"rewrite_globals,omitempty"`
+	// RewritePure: with RewriteGlobals, pass -pure (channels, select, go and
+	// context are left alone; only sync.Once/Pool/Mutex/RWMutex are shimmed).
+	RewritePure bool `json:"rewrite_pure,omitempty"`
 	// Sub lists further parts of the same check that need their own test
 	// binary (e.g. a SCHED part in a virtual package next to an input
 	// enumeration in the real package). Results are merged into one
@@ -198,6 +201,9 @@ func buildOverlay(e entry, wd string) (string, string) {
 		args := []string{"-out", outDir, "-pkg", filepath.Base(e.Pkg)}
 		if e.RewriteGlobals {
 			args = append([]string{"-globals"}, args...)
+			if e.RewritePure {
+				args = append([]string{"-pure"}, args...)
+			}
 		}
 		for _, f := range e.Rewrite {
 			if strings.ContainsAny(f, "*?") {
